@@ -106,6 +106,24 @@ impl PathSelector {
     /// Returns an absolute pattern.
     /// If pattern is relative (i.e. does not start with fs root), then the base_dir is appended.
     pub(crate) fn abs_pattern(base_dir: &Path, pattern: Pattern) -> Pattern {
+        Self::with_canonical_dir(Self::anchored_pattern(base_dir, pattern))
+    }
+
+    /// The scanned paths have the symbolic links to directories resolved. If the directory
+    /// given literally at the beginning of the pattern leads through such a link, the pattern
+    /// has to match the paths below the resolved directory as well.
+    fn with_canonical_dir(pattern: Pattern) -> Pattern {
+        if let Some((dir, rest)) = pattern.split_literal_dir() {
+            let canonical = Path::from(dir.as_str()).canonicalize();
+            let canonical = Self::append_sep(canonical.to_string_lossy());
+            if canonical != dir {
+                return pattern.or(Pattern::literal(canonical.as_str()) + rest);
+            }
+        }
+        pattern
+    }
+
+    fn anchored_pattern(base_dir: &Path, pattern: Pattern) -> Pattern {
         if Self::is_absolute(&pattern) {
             pattern
         } else {
